@@ -1238,6 +1238,12 @@ def c15(case, lines):
     r7 = c07(case, lines) if "dropped-stream" in (case.get("tags") or []) else None
     if r7:
         return r7
+    if (case.get("id") or "").startswith(("cancel-pubrel-queued", "abandoned-with-pubrel-queued")):
+        # the PUBREL of the abandoned publish went out, its PUBCOMP came back: the slot is free again, and these scripts
+        # never have more than Receive Maximum publishes open afterwards
+        for op, rs in sorted(tr.done().items()):
+            if any("QuotaExceeded" in r for _, r in rs):
+                return "slot: operation %d was refused with QuotaExceeded after the PUBCOMP of the abandoned QoS 2 publish had arrived: its flow-control slot was not returned" % op
     return c10(case, lines) if not has(tr, "hold") else None
 
 
@@ -1317,6 +1323,10 @@ def c17(case, lines):
                         return "resend: re-sent PUBLISH %d without DUP=1" % pid
                     if o["raw"][1:] != orig["raw"][1:] or (o["raw"][0] & 0xf7) != (orig["raw"][0] & 0xf7):
                         return "resend: re-sent PUBLISH %d differs from the original" % pid
+                elif kind == "pubrel":
+                    if bytes(o["raw"]) != bytes(orig["raw"]):
+                        return "resend: the PUBREL re-sent for identifier %d reads %s, the one first written %s (a PUBREL is re-sent as it was; its flags are fixed at 0010)" % (
+                            pid, M.hx(bytes(o["raw"])), M.hx(bytes(orig["raw"])))
             extra = [(a, b) for a, b, o in resent[len(want):] if a == "pubrel" or o.get("dup")]
             if extra:
                 return "resend: packets re-sent beyond the unfinished handshakes: %s" % extra
@@ -1788,6 +1798,10 @@ def c02(case, lines):
         if got != [M.hx(b"first"), M.hx(b"second")]:
             return "accept: the PUBREL delivered (whatever its legal form and reason code) ends the exchange; the stream yielded %s, the broker sent ['%s', '%s'] as two separate messages" % (
                 got, M.hx(b"first"), M.hx(b"second"))
+    if "sub-pending" in (case.get("tags") or []):
+        r7_ = c07(case, lines)
+        if r7_:
+            return "values: " + r7_
     if "tail2" in (case.get("tags") or []):
         # a two-byte packet at the very end of a read that brought other packets is seen like any other
         dk = max(k for k, e in enumerate(tr.evs) if e.startswith("deliver "))
